@@ -44,6 +44,8 @@ func runC13(p *Prog, r *Report) {
 	checkTotalOrderComparatorsAs(p, r, "R13.4-stable-encoding-order")
 	c13CoercionExhaustive(p, r, "R13.10-coercion-exhaustive")
 	c13ImplicitEntity(p, r)
+	ownedBytesRule(p, r, "R13.12-owned-bytes", 4, pTypes, pRoot)
+	cachedHashAuthors(p, r, "R13.13-decoders-use-the-constructor")
 }
 
 func c13Shapes(p *Prog, r *Report) {
